@@ -162,7 +162,7 @@ Aux:
 				// ignore
 			default:
 				if !ss.boundHere(ad.Name) {
-					ss.Let(Symbol(ad.Name), ad.Default)
+					ss.Let(Symbol(ad.Name), defaultValue(ss, ad, depth))
 				}
 			}
 		case restMode:
@@ -175,7 +175,7 @@ Aux:
 				// ignore
 			default:
 				if !ss.boundHere(ad.Name) {
-					ss.Let(Symbol(ad.Name), ad.Default)
+					ss.Let(Symbol(ad.Name), defaultValue(ss, ad, depth))
 				}
 			}
 		case keyMode:
@@ -183,18 +183,33 @@ Aux:
 			if AmpAux == asym {
 				mode = auxMode
 			} else if !ss.boundHere(ad.Name) {
-				ss.Let(asym, ad.Default)
+				ss.Let(asym, defaultValue(ss, ad, depth))
 			}
 		case auxMode:
-			val := ad.Default
-			if list, ok := val.(List); ok && 1 < len(list) {
-				d2 := depth + 1
-				val = ss.Eval(ListToFunc(ss, list, d2), d2)
-			}
-			ss.Let(Symbol(ad.Name), val)
+			ss.Let(Symbol(ad.Name), defaultValue(ss, ad, depth))
 		}
 	}
 	return lam.BoundCall(ss, depth)
+}
+
+// defaultValue returns the value of the default form of a parameter. The
+// form is evaluated in the scope of the call so it can refer to the parameters
+// before it.
+func defaultValue(ss *Scope, ad *DocArg, depth int) Object {
+	d2 := depth + 1
+	switch td := ad.Default.(type) {
+	case nil:
+		return nil
+	case List:
+		if len(td) == 0 {
+			return nil
+		}
+		return ss.Eval(ListToFunc(ss, td, d2), d2)
+	default:
+		// A symbol is looked up, a quoted or otherwise already compiled
+		// form is called and anything else evaluates to itself.
+		return ss.Eval(td, d2)
+	}
 }
 
 // boundHere returns true if the name has a binding in this scope itself, the
